@@ -293,13 +293,22 @@ def decl_of(spec, problem, surrogate=None, normalize=None):
     if sorted(names) != sorted(by_name):
         raise HarnessError(f"problem names {names} != spec names {sorted(by_name)}")
     pos = {n: i for i, n in enumerate(names)}
-    trs = {}
+    trs, encs = {}, {}
     if surrogate is not None:
+        from deephyper.skopt.utils import normalize_dimensions
+
         sp = convert_to_skopt_space(problem.space, surrogate_model=surrogate)
         if normalize if normalize is not None else surrogate == "GP":
-            trs = {d.name: "normalize" for d in sp.dimensions}
-        else:
-            trs = {d.name: d.transform_ for d in sp.dimensions}
+            sp.dimensions = normalize_dimensions(sp.dimensions)
+        trs = {d.name: d.transform_ for d in sp.dimensions}
+        # the order in which the label encoder numbers the categories, observed through the
+        # public `Dimension.transform`
+        for d in sp.dimensions:
+            if type(d).__name__ == "Categorical" and d.transform_ in ("label", "normalize"):
+                cats = list(d.categories)
+                keys = [float(np.asarray(d.transform([c])).reshape(-1)[0]) for c in cats]
+                encs[d.name] = [c for _, c in sorted(zip(keys, range(len(cats))))]
+                encs[d.name] = [cats[i] for i in encs[d.name]]
     conds = {c["child"]: c["cond"] for c in spec["conds"]}
 
     def jcond(c):
@@ -326,8 +335,11 @@ def decl_of(spec, problem, surrogate=None, normalize=None):
         else:
             dim = {"t": "cat", "choices": [enc(v) for v in h["choices"]]}
         default_tr = "identity" if h["kind"] in ("int", "float") else "label"
-        hps.append({"name": n, "dim": dim, "tr": trs.get(n, default_tr),
-                    "cond": jcond(conds[n]) if n in conds else None})
+        hp = {"name": n, "dim": dim, "tr": trs.get(n, default_tr),
+              "cond": jcond(conds[n]) if n in conds else None}
+        if n in encs:
+            hp["enc"] = [enc(plain(v)) for v in encs[n]]
+        hps.append(hp)
     return {"hps": hps, "forbs": [jforb(f) for f in spec["forbs"]]}
 
 
@@ -581,6 +593,11 @@ def session_request(cell, decl, rec, univ=None):
            # lbfgs (GP) ends on points that are not sampled candidates
            "freeAllowed": cell.get("surrogate") == "GP",
            "rounds": rounds}
+    if cell.get("design", "random") != "random":
+        # the points of a pre-computed initial design are handed out first, in order: the first
+        # n_initial proposals *are* the design (observed, not predicted)
+        flat = [x for r in rec["rounds"] for x in r["X"]]
+        req["initSamples"] = [enc_cfg(x) for x in flat[: cell["n_initial"]]]
     if univ is not None:
         req["univ"] = [enc_cfg(u) for u in univ]
     return req
